@@ -660,7 +660,7 @@ func (mc *Chain) AddToRoundVerification(ctx context.Context, mr *Round, b *block
 				zap.Any("prev_creation_date", b.PrevBlock.CreationDate))
 			return
 		}
-		mc.updatePriorBlock(mr.Round, b)
+		mc.updatePriorBlock(ctx, mr.Round, b)
 	}
 
 	mr.AddProposedBlock(b)
@@ -1072,7 +1072,7 @@ func (mc *Chain) VerifyRoundBlock(ctx context.Context, r round.RoundI, b *block.
 	}
 
 	if b.PrevBlock != nil && b.PrevBlock.IsBlockNotarized() {
-		mc.updatePriorBlock(r, b)
+		mc.updatePriorBlock(ctx, r, b)
 		return bvt, nil
 	}
 
@@ -1084,9 +1084,21 @@ func (mc *Chain) VerifyRoundBlock(ctx context.Context, r round.RoundI, b *block.
 	return bvt, nil
 }
 
-func (mc *Chain) updatePriorBlock(r round.RoundI, b *block.Block) {
+func (mc *Chain) updatePriorBlock(ctx context.Context, r round.RoundI, b *block.Block) {
 	pb := b.PrevBlock
-	mc.MergeVerificationTickets(pb, b.GetPrevBlockVerificationTickets())
+	// the previous block's tickets a received block carries are not trusted: only
+	// the ones that are new to the previous block and verify are added to it
+	if vts := pb.UnknownTickets(b.GetPrevBlockVerificationTickets()); len(vts) > 0 {
+		if err := mc.VerifyTickets(ctx, pb.Hash, vts, pb.Round); err != nil {
+			logging.Logger.Error("update prior block - invalid previous block tickets",
+				zap.Int64("round", r.GetRoundNumber()),
+				zap.String("block", b.Hash),
+				zap.String("prev_block", b.PrevHash),
+				zap.Error(err))
+		} else {
+			mc.MergeVerificationTickets(pb, vts)
+		}
+	}
 	pr := mc.GetMinerRound(pb.Round)
 	if pr == nil {
 		logging.Logger.Error("update prior block - previous round not present",
